@@ -485,12 +485,49 @@ def _mutated_between(body, vo, from_bb, to_bb):
     return True
 
 
+def _len_call_root(body, op):
+    a = single_origin(trace_operand(body, op))
+    if a is None or a.kind != 'callres' or a.data.callee != 'std::vec::Vec::<T, A>::len':
+        return None
+    return root_place(body, a.data.args[0])
+
+
+def _len_edges(body, vroot):
+    """(switch block, target block, n) for every edge on which `len(v) == n` is known for the Vec rooted at vroot:
+    the true edge of `len == n` and the `n:` arm of a switch on the length itself"""
+    out = []
+    for b in sorted(body.live_blocks):
+        t = body.blocks[b]['term']
+        if t['k'] != 'switch':
+            continue
+        if _len_call_root(body, t['discr']) == vroot:
+            for v, tb in t['targets']:
+                out.append((b, tb, v))
+            continue
+        l = op_local(t['discr'])
+        defs = defuse(body).defs.get(l, []) if l is not None else []
+        if len(defs) != 1 or defs[0][2] != 'assign' or defs[0][3]['k'] != 'binop' or defs[0][3]['op'] != 'Eq':
+            continue
+        rv = defs[0][3]
+        n = op_const_int(rv['b'])
+        if n is None or _len_call_root(body, rv['a']) != vroot:
+            continue
+        for v, tb in switch_edges(body, b):
+            if v == 'otherwise' and [x for x, _ in t['targets']] == [0]:
+                out.append((b, tb, n))
+    return out
+
+
 def d_len_eq(site):
-    """v[k] (k constant) dominated by the true edge of `v.len() == n`, n > k, for a *local* Vec
-    that is not mutably borrowed / reassigned between the test and the index"""
+    """v[k] / v.remove(k) / v.swap_remove(k) (k constant) dominated by an edge on which `v.len() == n`, n > k, is
+    known, for a *local* Vec that is not mutably borrowed / reassigned between the test and the use"""
     body = site.body
     c = site.call
-    if site.cls != 'index' or c is None or 'Vec<T, A> as std::ops::Index' not in (c.rdef or ''):
+    if c is None:
+        return None
+    is_index = site.cls == 'index' and 'Vec<T, A> as std::ops::Index' in (c.rdef or '')
+    is_remove = c.callee in ('std::vec::Vec::<T, A>::remove', 'std::vec::Vec::<T, A>::swap_remove')
+    if not (is_index or is_remove) or len(c.args) < 2:
         return None
     k = op_const_int(c.args[1])
     if k is None:
@@ -501,42 +538,38 @@ def d_len_eq(site):
     vroot = root_place(body, c.args[0])
     if vroot is None:
         return None
-    for b in sorted(body.live_blocks):
-        t = body.blocks[b]['term']
-        if t['k'] != 'switch':
+    # the &mut borrow that feeds this very call is not a mutation "in between"
+    own = set()
+    pl = op_place(c.args[0])
+    if pl is not None:
+        own.add(pl['l'])
+    for b, tb, n in _len_edges(body, vroot):
+        if n <= k or not edge_dominates(body, b, tb, site.bb):
             continue
-        l = op_local(t['discr'])
-        defs = defuse(body).defs.get(l, []) if l is not None else []
-        if len(defs) != 1 or defs[0][2] != 'assign' or defs[0][3]['k'] != 'binop' or defs[0][3]['op'] != 'Eq':
-            continue
-        rv = defs[0][3]
-        n = op_const_int(rv['b'])
-        a = single_origin(trace_operand(body, rv['a']))
-        if n is None or a is None or a.kind != 'callres' or a.data.callee != 'std::vec::Vec::<T, A>::len' or n <= k:
-            continue
-        lroot = root_place(body, a.data.args[0])
-        if lroot != vroot:
-            continue
-        for v, tb in switch_edges(body, b):
-            if v == 'otherwise' and [x for x, _ in t['targets']] == [0] and edge_dominates(body, b, tb, site.bb):
-                # no &mut borrow / redefinition of the Vec between
-                fwd = body.reachable_from(tb)
-                back = set()
-                st = [site.bb]
-                while st:
-                    x = st.pop()
-                    if x in back:
-                        continue
-                    back.add(x)
-                    st.extend(body.pred[x])
-                between = fwd & back
-                mutated = False
-                for x in between:
-                    for s_ in body.blocks[x]['stmts']:
-                        if s_['k'] == 'assign' and ((s_['rv']['k'] == 'ref' and s_['rv'].get('mut') and s_['rv']['pl']['l'] == vroot[0]) or (s_['pl']['l'] == vroot[0])):
-                            mutated = True
-                if not mutated:
-                    return ('D-range', 'index %d after len(v) == %d on the same local Vec, not mutated in between' % (k, n))
+        fwd = body.reachable_from(tb)
+        back = set()
+        st = [site.bb]
+        while st:
+            x = st.pop()
+            if x in back:
+                continue
+            back.add(x)
+            st.extend(body.pred[x])
+        between = fwd & back
+        mutated = False
+        for x in between:
+            for s_ in body.blocks[x]['stmts']:
+                if s_['k'] != 'assign':
+                    continue
+                if s_['rv']['k'] == 'ref' and s_['rv'].get('mut') and s_['rv']['pl']['l'] == vroot[0] and s_['pl']['l'] not in own:
+                    mutated = True
+                if s_['pl']['l'] == vroot[0]:
+                    mutated = True
+        # a removing call must not sit on a cycle (a second execution would see a shorter Vec)
+        if is_remove and any(site.bb in body.reachable_from(sx) for sx in body.succ[site.bb] if not body.blocks[sx]['cleanup']):
+            mutated = True
+        if not mutated:
+            return ('D-range', '%s %d after len(v) == %d on the same local Vec, not mutated in between' % ('index' if is_index else 'remove', k, n))
     return None
 
 
@@ -613,6 +646,24 @@ def d_counter(site):
             if o is not None and o.kind == 'binop' and o.data[2] is rv:
                 if proj_key(dpl['p']) == proj_key(pl['p']) and (dpl['l'] == pl['l'] or root_place(body, pl, is_place=True) == root_place(body, dpl, is_place=True)):
                     return ('D-counter', '64-bit counter += %d written back to the same place: cannot overflow in fewer than 2^47 increments' % k)
+    return None
+
+
+BYTE_LEN = ('core::str::<impl str>::len', 'std::string::String::len', 'std::ffi::OsStr::len')
+
+
+def d_len_plus(site):
+    """byte length of a string + a small constant: a str never exceeds isize::MAX bytes, so the sum fits usize"""
+    rv = _assert_binop(site)
+    if rv is None or rv['op'] != 'AddWithOverflow' or rv.get('aty') != 'usize':
+        return None
+    for x, y in ((rv['a'], rv['b']), (rv['b'], rv['a'])):
+        k = op_const_int(y)
+        if k is None or not (0 <= k <= 1 << 32):
+            continue
+        o = single_origin(trace_operand(site.body, x, through_calls=set()))
+        if o is not None and o.kind == 'callres' and (o.data.rdef or o.data.callee) in BYTE_LEN:
+            return ('D-bound', 'str byte length (<= isize::MAX) + %d fits usize' % k)
     return None
 
 
@@ -738,7 +789,7 @@ def d_bp(site):
     return None
 
 
-DISCHARGERS = [d_guard, d_total, d_lock, d_range, d_len_eq, d_bp, d_vetted, d_counter, d_balanced, d_index_succ]
+DISCHARGERS = [d_guard, d_total, d_lock, d_range, d_len_eq, d_bp, d_vetted, d_counter, d_balanced, d_index_succ, d_len_plus]
 
 
 def evaluate(bodies, extra_dischargers=(), rule='PANIC'):
